@@ -398,6 +398,25 @@ def empty_batch_scenarios(seed):
     return [scn("empty-batches", steps, seed=seed)]
 
 
+def ack_deadline_scenarios(seed, quick):
+    """Subscriptions created with ack deadlines across the whole range (below the minimum, ordinary,
+    at and beyond 600 s): a delivery is not handed out again 2 s before ITS deadline and is 2 s after."""
+    out = []
+    for i, a in enumerate((0, 5, 10, 11, 60, 600, 601, 900) if quick else (0, 1, 5, 9, 10, 11, 37, 60, 599, 600, 601, 610, 900, 3600, 86400)):
+        d = max(a, 10)
+        steps = [call(1, op="CreateTopic", name=T1), call(1, op="CreateSub", name=S1, topic=T1, ack=a),
+                 call(1, op="GetSub", name=S1), call(1, op="ListSubs", project="projects/p1", size=0, token=""),
+                 call(1, op="Publish", topic=T1, msgs=[{"p": "ad%d-a" % a}, {"p": "ad%d-b" % a}]),
+                 call(2, op="Pull", sub=S1, max=1, ri=True),
+                 {"do": "advance", "ms": d * 1000 - 2000}, call(2, op="Pull", sub=S1, max=1, ri=True),
+                 {"do": "advance", "ms": 1900}, call(3, op="GetSub", name=S1),
+                 {"do": "advance", "ms": 2100}, call(2, op="Pull", sub=S1, max=10, ri=True),
+                 {"do": "advance", "ms": d * 1000 + 1500}, call(2, op="Pull", sub=S1, max=10, ri=True),
+                 {"do": "drain", "c": 9}]
+        out.append(scn("ackdl-%d" % a, steps, seed=seed + i, phase=(i * 37) % 100))
+    return out
+
+
 def stream_ctrl_scenarios(seed, quick):
     """Control messages of every shape on an open StreamingPull: empty (keep-alive), acks only,
     modifications only, both in one message, several in a row; after each the server comes to rest
@@ -511,7 +530,7 @@ def plan_c04(prop, tier, seed, t0):
                 SubNames={S1, S2}, MaxOps=6, MaxNow=7)
     phases = tuple(range(0, 100, 7)) + (99, 1)
     return core_check(prop, tier, seed, t0, over, explore=[("data", 32, 1000)], phases=phases,
-                      extra_scenarios=lambda quick, sd: deadline_probe_scenarios(sd, quick),
+                      extra_scenarios=lambda quick, sd: deadline_probe_scenarios(sd, quick) + ack_deadline_scenarios(sd, quick),
                       adv_extra=(0, 101, 1, 99), thorough={"mc": dict(MaxOps=7, MaxMsgs=3, MaxNow=8)})
 
 
@@ -601,7 +620,7 @@ def plan_c10(prop, tier, seed, t0):
                 MaxOps=5, MaxMsgs=1)
     return core_check(prop, tier, seed, t0, over, explore=[("churn", 64, 3000), ("mt:churnrace", 300, 20000), ("mt:cdrace", 300, 20000)],
                       extra_scenarios=lambda quick, sd: inflight_delete_scenarios(sd, quick) + inflight_topic_delete_scenarios(sd, quick)
-                      + empty_batch_scenarios(sd),
+                      + empty_batch_scenarios(sd) + ack_deadline_scenarios(sd, quick),
                       thorough={"mc": dict(MaxOps=6)}, turns=True)
 
 
@@ -612,7 +631,8 @@ def plan_c11(prop, tier, seed, t0):
                 MaxOps=6, MaxMsgs=2)
     return core_check(prop, tier, seed, t0, over, explore=[("churn", 64, 3000), ("mt:churnrace", 300, 20000), ("mt:cdrace", 300, 20000)],
                       extra_scenarios=lambda quick, sd: cancel_scenarios(sd, kinds={"DeleteSub", "DeleteTopic", "CreateSub"}, quick=quick)
-                      + inflight_delete_scenarios(sd, quick) + inflight_topic_delete_scenarios(sd, quick),
+                      + inflight_delete_scenarios(sd, quick) + inflight_topic_delete_scenarios(sd, quick)
+                      + pinned_topic_scenarios(sd, quick),
                       thorough={"mc": dict(MaxOps=7)}, turns=True)
 
 
@@ -893,6 +913,33 @@ def inflight_delete_scenarios(seed, quick):
     return out
 
 
+def pinned_topic_scenarios(seed, quick):
+    """DeleteTopic (and re-creation under the same name) while consumers wait on the topic's
+    subscriptions: the subscriptions report their topic as deleted at once and stay detached."""
+    out = []
+    for k in range(4 if quick else 16):
+        consumer = [start("p", 3, op="Pull", sub=S1, max=1, ri=False)] if k % 2 == 0 else \
+            [{"do": "sopen", "h": "s", "c": 3, "sub": S1, "max": 5}]
+        if k % 4 >= 2:
+            consumer.append(start("p2", 4, op="Pull", sub=S2, max=1, ri=False))
+        steps = [call(1, op="CreateTopic", name=T1), call(1, op="CreateSub", name=S1, topic=T1, ack=10),
+                 call(1, op="CreateSub", name=S2, topic=T1, ack=10)] + consumer + [
+                 {"do": "settle"}, {"do": "advance", "ms": 300 * (k % 3)},
+                 call(2, op="DeleteTopic", name=T1),
+                 call(2, op="GetSub", name=S1), call(2, op="GetSub", name=S2),
+                 call(2, op="ListSubs", project="projects/p1", size=0, token=""),
+                 call(2, op="CreateTopic", name=T1),
+                 call(2, op="GetSub", name=S1), call(2, op="ListSubs", project="projects/p1", size=0, token=""),
+                 call(2, op="ListTopicSubs", topic=T1, size=0, token=""),
+                 call(2, op="Publish", topic=T1, msgs=[{"p": "pin%d" % k}]), {"do": "settle"}, {"do": "quiet"},
+                 call(2, op="DeleteSub", name=S1), call(2, op="DeleteSub", name=S2), {"do": "waitall"}]
+        if k % 2:
+            steps.append({"do": "swait", "h": "s"})
+        steps.append({"do": "drain", "c": 9})
+        out.append(scn("pinned-topic-%d" % k, steps, seed=seed * 100 + k, cap=(16, 1, 2)[k % 3]))
+    return out
+
+
 def inflight_topic_delete_scenarios(seed, quick):
     """A DeleteTopic is held at the head of the topic actor's turn (the actor is gated) while requests
     that looked the topic up BEFORE the deletion queue up behind it: a publish, a DeleteSubscription
@@ -980,6 +1027,12 @@ def cancel_scenarios(seed, kinds=None, quick=True):
                                   call(4, op="Publish", topic=T1, msgs=[{"p": "probe"}]),
                                   call(4, op="Pull", sub=S1, max=10, ri=True),
                                   call(4, op="Pull", sub=S2, max=10, ri=True),
+                                  # ... and everything can still be deleted and created again
+                                  call(4, op="DeleteSub", name=S1), call(4, op="DeleteSub", name=S2),
+                                  call(4, op="GetSub", name=S1), call(4, op="DeleteTopic", name=T1),
+                                  call(4, op="CreateTopic", name=T1), call(4, op="CreateSub", name=S1, topic=T1, ack=10),
+                                  call(4, op="Publish", topic=T1, msgs=[{"p": "probe2"}]),
+                                  call(4, op="Pull", sub=S1, max=10, ri=True),
                                   {"do": "drain", "c": 9}]
                         out.append(scn("cx-%s-p%d-y%d-%s-cap%d" % (kind, polls, yields, "sat" if sat else "free", cap), steps,
                                        seed=seed * 1000 + n, cap=cap))
@@ -1148,7 +1201,8 @@ def c07_mc(work, quick, violations):
 
 def plan_c07(prop, tier, seed, t0):
     n = 24 if tier == "quick" else 400
-    return scenario_check(prop, tier, seed, t0, c07_scenarios(n, seed) + stream_ctrl_scenarios(seed, tier == "quick"), mc=c07_mc,
+    return scenario_check(prop, tier, seed, t0, c07_scenarios(n, seed) + stream_ctrl_scenarios(seed, tier == "quick")
+                          + cancel_scenarios(seed, kinds={"DeleteSub", "DeleteTopic", "CreateSub"}, quick=tier == "quick"), mc=c07_mc,
                           explore=[("mixed", 48, 2000), ("churn", 24, 1000), ("consumers", 24, 1000)])
 
 
@@ -1233,6 +1287,17 @@ def c06_scenarios(n_seeds, seed):
             gate0, consumer, {"do": "settle"},
             {"do": "advance", "ms": 1300}, gate_open, {"do": "settle"}, Q, {"do": "advance", "ms": 300}, Q]
             + finish_consumer + [Q, {"do": "drain", "c": 9}], seed=sd, cap=cap))
+        # W13: a waiting Pull whose batch limit is zero as a 16-bit value, queued AHEAD of an ordinary
+        # consumer: the wake-up it gets must not be swallowed
+        zero = (0, 65536, 131072, -2147483648)[k % 4]
+        other = (start("p2", 4, op="Pull", sub=S1, max=10, ri=False) if k % 2 == 0
+                 else {"do": "sopen", "h": "s", "c": 4, "sub": S1, "max": 5})
+        out.append(scn("c06-W13-%d" % k, pre + [
+            start("p1", 3, op="Pull", sub=S1, max=zero, ri=False), {"do": "settle"}, other, {"do": "settle"},
+            call(2, op="Publish", topic=T1, msgs=[{"p": "w13-%d" % k}]), {"do": "settle"}, Q,
+            {"do": "advance", "ms": 50}, Q,
+            {"do": "abort", "h": "p1"}] + ([{"do": "abort", "h": "p2"}] if k % 2 == 0 else [{"do": "sabandon", "h": "s"}])
+            + [{"do": "drain", "c": 9}], seed=sd, cap=cap))
         # W9: a backlog beyond 65535 messages (16-bit arithmetic in the pull path): several waiting
         # consumers, one huge publish; light recording, judged on the reported backlog sizes
         if k < 3:
